@@ -509,15 +509,17 @@ theorem chain_write (c : Cfg) (hr : c.rotating = true) (hm : 0 < c.maxBytes) (hN
   have hg : (emit c b s).dir.get = writeDir c s f b := funext g
   rw [hg]
   by_cases hl : ((f.data ++ b).length : Int) < c.maxBytes
-  · refine ⟨[], ?_, by simp⟩
+  · have hl' : (f.data.length : Int) + (b.length : Int) < c.maxBytes := by simpa using hl
+    refine ⟨[], ?_, by simp⟩
     simp only [List.flatten_nil, List.nil_append]
     symm
     apply chain_append0
-    · simp [content, writeDir, hl, hf]
+    · simp [content, writeDir, hl, hl', hf]
     · intro n hn
       have : ¬ n = 0 := by omega
-      simp [content, writeDir, hl, this]
+      simp [content, writeDir, hl, hl', this]
   · -- a rollover
+    have hl' : ¬ (f.data.length : Int) + (b.length : Int) < c.maxBytes := by simpa using hl
     let g1 : Int → Option File := fun n => if n = 0 then some ⟨f.start, f.data ++ b⟩ else s.dir.get n
     have h1 : ∀ k, chain g1 k = chain s.dir.get k ++ b := by
       apply chain_append0
@@ -530,7 +532,7 @@ theorem chain_write (c : Cfg) (hr : c.rotating = true) (hm : 0 < c.maxBytes) (hN
     | zero =>
       have hN0 : c.backupCount = 0 := by omega
       refine ⟨[f.data ++ b], ?_, ?_⟩
-      · simp [chain, content, writeDir, hl, g1]
+      · simp [chain, content, writeDir, hl, hl', g1]
       · intro x hx
         simp only [List.mem_singleton] at hx
         subst hx
@@ -543,14 +545,14 @@ theorem chain_write (c : Cfg) (hr : c.rotating = true) (hm : 0 < c.maxBytes) (hN
         by_cases hn0 : n = 0
         · subst hn0
           have : (1 : Int) ≤ c.backupCount := by omega
-          simp [content, writeDir, hl, g1, this]
+          simp [content, writeDir, hl, hl', g1, this]
         · have a1 : ¬ ((n : Int) + 1 = 0) := by omega
           have a2 : ¬ ((n : Int) + 1 = 1 ∧ 1 ≤ c.backupCount) := by omega
           have a3 : 2 ≤ (n : Int) + 1 ∧ (n : Int) + 1 ≤ c.backupCount := by omega
           have a4 : ¬ ((n : Int) = 0) := by omega
           have a5 : (n : Int) + 1 - 1 = n := by omega
-          simp [content, writeDir, hl, g1, a1, a2, a3, a4, a5]
-      have hc0 : content (writeDir c s f b) 0 = [] := by simp [content, writeDir, hl]
+          simp [content, writeDir, hl, hl', g1, a1, a2, a3, a4, a5]
+      have hc0 : content (writeDir c s f b) 0 = [] := by simp [content, writeDir, hl, hl']
       rw [hs, hc0, List.append_nil]
       have hk1 : ¬ (((k + 1 : Nat) : Int) = 0) := by omega
       cases hp : s.dir.get ((k + 1 : Nat) : Int) with
